@@ -66,6 +66,28 @@ def gen_pwm(rng):
     return pwm, eps, bin_size
 
 
+def fimo_hits(pwm, eps, bin_size, rng):
+    """the p-value column of fimo() for this PWM / eps / bin size: [[score, p], ...], one per score bin"""
+    import torch
+    w = pwm.shape[1]
+    L = 240
+    idx = [rng.randrange(4) for _ in range(L)]
+    for off in (0, L - w, rng.randrange(0, L - w + 1)):          # the consensus, so that the top bins are reported too
+        for j in range(w):
+            idx[off + j] = int(numpy.argmax(pwm[:, j]))
+    X = numpy.zeros((1, 4, L), dtype=numpy.float32)
+    X[0, idx, numpy.arange(L)] = 1
+    df = F.fimo({"m": torch.from_numpy(numpy.ascontiguousarray(pwm))}, torch.from_numpy(X), bin_size=bin_size, eps=eps,
+                threshold=0.6, reverse_complement=False)[0]
+    seen, out = set(), []
+    for sc, pv in zip(df["score"].values, df["p-value"].values):
+        b = int(float(sc) / bin_size)
+        if b not in seen and len(out) < 60:
+            seen.add(b)
+            out.append([float(sc), float(pv)])
+    return out
+
+
 def handler(case):
     mode = case.get("mode", "m1")
     if mode == "m1":
@@ -95,8 +117,15 @@ def handler(case):
     if mode == "gen":          # realistic PWMs: return the discretised, shifted matrix for the oracle plus the implementation's table
         rng = random.Random(case["seed"])
         outs = []
+        todo = []
         for k in range(case["n"]):
             pwm, eps, bin_size = gen_pwm(rng)
+            todo.append((pwm, eps, bin_size, 0))
+            if pwm.shape[1] <= 12 and k % 2 == 0:
+                # the same motif again in the same process with another pseudocount, then the first one again (a history of calls)
+                eps2 = rng.choice([e for e in (1e-6, 1e-4, 1e-3, 1e-2, 0.1) if e != eps])
+                todo += [(pwm, eps2, bin_size, 1), (pwm, eps, bin_size, 2)]
+        for pwm, eps, bin_size, step in todo:
             logp = numpy.log2(pwm + eps) - math.log2(0.25)
             I = numpy.round(logp / bin_size).astype(numpy.int64)
             colmin = I.min(axis=0)
@@ -109,7 +138,13 @@ def handler(case):
                 st = "ok"
             except Exception as e:
                 smallest, table, st = 0, [], "err"
-            outs.append(dict(M=Ms, R=R, shift=int(colmin.sum()), w=int(I.shape[1]), eps=eps, bin_size=bin_size, st=st,
+            hits = None
+            if st == "ok" and pwm.shape[1] <= 12:
+                try:
+                    hits = fimo_hits(pwm, eps, bin_size, rng)
+                except Exception as e:
+                    hits = "err %s" % type(e).__name__
+            outs.append(dict(M=Ms, R=R, shift=int(colmin.sum()), w=int(I.shape[1]), eps=eps, bin_size=bin_size, st=st, hits=hits, step=step,
                              smallest=smallest, table=[("nan" if t != t else ("-inf" if t == float("-inf") else t)) for t in table],
                              pwm=[[round(v, 6) for v in row] for row in pwm.tolist()]))
         return {"cases": outs}
